@@ -211,47 +211,53 @@ Proof.
       * right. exists k'. auto.
 Qed.
 
-Lemma In_registrations c l cm :
-  g_reg_topics c = true -> g_reg_chans c = true ->
-  (In cm (registrations c l) <->
-   exists i, i < length l /\ is_topic (getO l i) = true /\ o_map (getO l i) = true /\
-     ((chans_of l i = [] /\ cm = CReg (KT (o_t (getO l i)))) \/
-      (exists j, In j (chans_of l i) /\ cm = CReg (KC (o_t (getO l j)) (o_c (getO l j)))))).
+Lemma In_reg_chans c l i j :
+  g_skip_exiting c = true ->
+  (In j (reg_chans c l i) <-> In j (chans_of l i) /\ o_exit (getO l j) = false).
 Proof.
-  intros G1 G2. unfold registrations. rewrite in_flat_map. rewrite G1, G2. split.
+  intros G. unfold reg_chans. rewrite filter_In, G. cbn [andb]. rewrite negb_true_iff. tauto.
+Qed.
+
+Lemma In_registrations c l cm :
+  g_reg_topics c = true -> g_reg_chans c = true -> g_skip_exiting c = true ->
+  (In cm (registrations c l) <->
+   exists i, i < length l /\ is_topic (getO l i) = true /\ o_map (getO l i) = true /\ o_exit (getO l i) = false /\
+     ((reg_chans c l i = [] /\ cm = CReg (KT (o_t (getO l i)))) \/
+      (exists j, In j (reg_chans c l i) /\ cm = CReg (KC (o_t (getO l j)) (o_c (getO l j)))))).
+Proof.
+  intros G1 G2 G3. unfold registrations. rewrite in_flat_map. rewrite G1, G2, G3. cbn [andb]. split.
   - intros (i & Hi & H). apply In_ids in Hi. exists i. split; auto.
     destruct (is_topic (getO l i)); cbn [andb] in H; [|destruct H].
     destruct (o_map (getO l i)); cbn [andb] in H; [|destruct H].
-    split; auto. split; auto.
-    destruct (chans_of l i) as [|j0 js] eqn:C.
+    destruct (o_exit (getO l i)); cbn [negb] in H; [destruct H|].
+    split; auto. split; auto. split; auto.
+    destruct (reg_chans c l i) as [|j0 js] eqn:C.
     + left. destruct H as [H|[]]. auto.
     + right. apply in_map_iff in H. destruct H as (j & E & Hj). exists j. auto.
-  - intros (i & Hi & T & M & H). exists i. split. apply In_ids; auto.
-    rewrite T, M. cbn [andb].
+  - intros (i & Hi & T & M & X & H). exists i. split. apply In_ids; auto.
+    rewrite T, M, X. cbn [andb negb].
     destruct H as [[C ->]|(j & Hj & ->)].
     + rewrite C. left. reflexivity.
-    + destruct (chans_of l i) as [|j0 js] eqn:C; [destruct Hj|].
+    + destruct (reg_chans c l i) as [|j0 js] eqn:C; [destruct Hj|].
       apply in_map_iff. exists j. auto.
 Qed.
 
 Lemma registrations_are_regs c l cm : In cm (registrations c l) -> exists k, cm = CReg k.
 Proof.
   unfold registrations. rewrite in_flat_map. intros (i & _ & H).
-  destruct (is_topic (getO l i) && o_map (getO l i)); [|destruct H].
-  destruct (chans_of l i) as [|j0 js].
+  destruct (is_topic (getO l i) && o_map (getO l i) && negb (g_skip_exiting c && o_exit (getO l i))); [|destruct H].
+  destruct (reg_chans c l i) as [|j0 js].
   - destruct (g_reg_topics c); [|destruct H]. destruct H as [<-|[]]. eauto.
   - destruct (g_reg_chans c); [|destruct H]. apply in_map_iff in H. destruct H as (j & <- & _). eauto.
 Qed.
 
-(* no deleted object is still in its map with its UNREGISTER no longer pending *)
-Definition no_stale (l : list obj) (b : list nat) : Prop :=
-  forall i, o_map (getO l i) = true -> o_exit (getO l i) = true -> In i b.
-
+(* connectCallback registers exactly the live objects: J holds for the fresh connection
+   whatever is pending *)
 Lemma cb_J c l b :
-  g_reg_topics c = true -> g_reg_chans c = true ->
-  WF l b -> no_stale l b -> J l b (apply_cmds (registrations c l) []).
+  g_reg_topics c = true -> g_reg_chans c = true -> g_skip_exiting c = true ->
+  WF l b -> J l b (apply_cmds (registrations c l) []).
 Proof.
-  intros G1 G2 W NS. pose proof W as (W1 & W2 & W3 & W4 & W5 & W6).
+  intros G1 G2 G3 W. pose proof W as (W1 & W2 & W3 & W4 & W5 & W6).
   assert (R : forall x, In x (apply_cmds (registrations c l) []) <->
                         exists k, In (CReg k) (registrations c l) /\ In x (reg_keys k)).
   { intros x. rewrite apply_cmds_regs by apply registrations_are_regs. cbn. tauto. }
@@ -260,43 +266,38 @@ Proof.
     apply live_spec in L. destruct L as [Le Lp]. pose proof (W2 _ Le) as Mi.
     destruct (o_parent (getO l i)) as [p|] eqn:Pi.
     + destruct (W3 _ _ Pi) as (Lpl & Pp & Tp).
-      pose proof (W2 _ (Lp p eq_refl)) as Mp.
+      pose proof (Lp p eq_refl) as Ep. pose proof (W2 _ Ep) as Mp.
       exists (KC (o_t (getO l i)) (o_c (getO l i))). split.
-      * apply In_registrations; auto. exists p. split; auto. split. apply is_topic_spec; auto. split; auto.
-        right. exists i. split; auto. apply In_chans_of. split; auto. split; auto. apply is_chan_of_spec; auto.
+      * apply In_registrations; auto. exists p. split; auto. split. apply is_topic_spec; auto. split; auto. split; auto.
+        right. exists i. split; auto. apply In_reg_chans; auto. split; auto.
+        apply In_chans_of. split; auto. split; auto. apply is_chan_of_spec; auto.
       * unfold key_of. rewrite Pi. left. reflexivity.
-    + destruct (chans_of l i) as [|j0 js] eqn:C.
+    + destruct (reg_chans c l i) as [|j0 js] eqn:C.
       * exists (KT (o_t (getO l i))). split.
         -- apply In_registrations; auto. exists i. split; auto. split. apply is_topic_spec; auto. split; auto.
         -- unfold key_of. rewrite Pi. left. reflexivity.
-      * assert (Hj : In j0 (chans_of l i)) by (rewrite C; left; reflexivity).
-        pose proof Hj as Hj'. apply In_chans_of in Hj'. destruct Hj' as (Lj & Cj & Mj).
+      * assert (Hj : In j0 (reg_chans c l i)) by (rewrite C; left; reflexivity).
+        pose proof Hj as Hj'. apply In_reg_chans in Hj'; auto. destruct Hj' as (Hj' & _).
+        apply In_chans_of in Hj'. destruct Hj' as (Lj & Cj & Mj).
         apply is_chan_of_spec in Cj. destruct (W3 _ _ Cj) as (_ & _ & Tj).
         exists (KC (o_t (getO l j0)) (o_c (getO l j0))). split.
-        -- apply In_registrations; auto. exists i. split; auto. split. apply is_topic_spec; auto. split; auto.
+        -- apply In_registrations; auto. exists i. split; auto. split. apply is_topic_spec; auto. split; auto. split; auto.
            right. exists j0. auto.
         -- unfold key_of. rewrite Pi, Tj. right. left. reflexivity.
   - intros x Hx. apply R in Hx. destruct Hx as (k & Hk & Hx).
-    apply In_registrations in Hk; auto. destruct Hk as (i & Li & Ti & Mi & Hk).
-    apply is_topic_spec in Ti.
-    assert (TopicCase : x = KT (o_t (getO l i)) ->
-       (exists i0, live l i0 /\ key_of (getO l i0) = x) \/ (exists e, In e b /\ removes (getO l e) x = true)).
-    { intros ->. destruct (o_exit (getO l i)) eqn:Ei.
-      - right. exists i. split; auto. unfold removes. rewrite Ei, Ti. cbn. apply N.eqb_refl.
-      - left. exists i. split. apply live_spec. split; auto. intros p E; congruence.
-        unfold key_of. rewrite Ti. reflexivity. }
+    apply In_registrations in Hk; auto. destruct Hk as (i & Li & Ti & Mi & Ei & Hk).
+    apply is_topic_spec in Ti. left.
+    assert (Li' : live l i). { apply live_spec. split; auto. intros p E; congruence. }
+    assert (Ki : key_of (getO l i) = KT (o_t (getO l i))). { unfold key_of. rewrite Ti. reflexivity. }
     destruct Hk as [[C E]|(j & Hj & E)]; inversion E; subst k; clear E.
-    + destruct Hx as [<-|[]]. auto.
-    + apply In_chans_of in Hj. destruct Hj as (Lj & Cj & Mj). apply is_chan_of_spec in Cj.
+    + destruct Hx as [<-|[]]. exists i. auto.
+    + apply In_reg_chans in Hj; auto. destruct Hj as (Hj & Ej).
+      apply In_chans_of in Hj. destruct Hj as (Lj & Cj & Mj). apply is_chan_of_spec in Cj.
       destruct (W3 _ _ Cj) as (_ & _ & Tj).
       destruct Hx as [<-|[<-|[]]].
-      * destruct (o_exit (getO l i)) eqn:Ei.
-        { right. exists i. split; auto. unfold removes. rewrite Ei, Ti. cbn. rewrite Tj. apply N.eqb_refl. }
-        destruct (o_exit (getO l j)) eqn:Ej.
-        { right. exists j. split; auto. unfold removes. rewrite Ej, Cj. cbn. rewrite !N.eqb_refl. reflexivity. }
-        left. exists j. split. apply live_spec. split; auto. intros p E. rewrite Cj in E. inversion E; subst; auto.
+      * exists j. split. apply live_spec. split; auto. intros p E. rewrite Cj in E. inversion E; subst; auto.
         unfold key_of. rewrite Cj. reflexivity.
-      * apply TopicCase. rewrite Tj. reflexivity.
+      * exists i. split; auto. rewrite Ki, Tj. reflexivity.
 Qed.
 
 (* ------------------------------------------------------------------ a delivered notification *)
@@ -431,16 +432,6 @@ Proof.
   - intros H. exists i. split; auto. apply Nat.eqb_refl.
 Qed.
 
-Lemma stale_exiting_false s : stale_exiting s = false -> no_stale (objs s) (bag s).
-Proof.
-  unfold stale_exiting, no_stale. intros H i M E.
-  destruct (Nat.ltb_spec i (length (objs s))) as [Li|Li].
-  - apply mem_In. destruct (mem i (bag s)) eqn:Mi; auto.
-    exfalso. rewrite <- not_true_iff_false in H. apply H.
-    apply existsb_exists. exists i. split. apply In_ids; auto. rewrite M, E, Mi. reflexivity.
-  - rewrite getO_overflow in M by auto. discriminate.
-Qed.
-
 Lemma bag_has_false s p : bag_has s p = false -> forall e, In e (bag s) -> p (getO (objs s) e) = false.
 Proof.
   unfold bag_has. intros H e He. destruct (p (getO (objs s) e)) eqn:E; auto.
@@ -449,15 +440,6 @@ Qed.
 
 Lemma bag_has_true s p : bag_has s p = true -> exists e, In e (bag s) /\ p (getO (objs s) e) = true.
 Proof. unfold bag_has. intros H. apply existsb_exists in H. auto. Qed.
-
-Lemma may_connect_false s : may_connect s = false ->
-  forall k, In k (links s) -> k_conf k = true -> k_state k = st_connected.
-Proof.
-  unfold may_connect. intros H k Hk C.
-  destruct (Z.eqb_spec (k_state k) st_connected) as [E|E]; auto.
-  exfalso. rewrite <- not_true_iff_false in H. apply H. apply existsb_exists. exists k. split; auto.
-  rewrite C. cbn. apply negb_true_iff. apply Z.eqb_neq. auto.
-Qed.
 
 Lemma notif_cmd_good c o : g_unreg_topic c = true -> g_unreg_chan c = true -> notif_cmd c o = deliver_cmd o.
 Proof.
@@ -469,12 +451,11 @@ Qed.
 Lemma link_cmd c l b b' cm k :
   good_cfg c -> WF l b -> k_conf k = true -> LK k ->
   (l_alive k = true -> J l b (l_regs k)) ->
-  (k_state k <> st_connected -> no_stale l b) ->
   (forall R, J l b R -> J l b' (apply_opt cm R)) ->
   let k' := fst (command c (registrations c l) cm k) in
   LK k' /\ (l_alive k' = true -> J l b' (l_regs k')).
 Proof.
-  intros (G1 & G2 & G3 & G4 & _) W C L HJ NS T k'.
+  intros (G1 & G2 & G3 & G4 & G5 & _) W C L HJ T k'.
   assert (LKs : l_alive k = true -> k_state k = st_connected) by (intros A; apply L; auto).
   pose proof (command_alive c (registrations c l) cm k G1 G2 LKs) as CA. cbn in CA. fold k' in CA.
   pose proof (command_frame c (registrations c l) cm k) as (F1 & _). fold k' in F1.
@@ -490,7 +471,7 @@ Proof. intros S (W1 & W). split; auto. Qed.
 Lemma loop_step_Inv Q c s o s' :
   good_cfg c -> Inv_on Q s -> hazard s o = false -> loop_step c s o = Run s' -> Inv_on Q s'.
 Proof.
-  intros G (W & K & HL) Hz X. pose proof G as (G1 & G2 & G3 & G4 & G5 & G6 & _).
+  intros G (W & K & HL) Hz X. pose proof G as (G1 & G2 & G3 & G4 & G5 & G6 & G7 & _).
   destruct o; cbn [loop_step] in X; try (inversion X; subst; split; auto; fail).
   - (* Deliver *)
     cbn [hazard] in Hz.
@@ -498,17 +479,16 @@ Proof.
     match type of X with context [on_links ?f 0 ?ls] => destruct (on_links f 0 ls) as [ls'|] eqn:O; [|discriminate] end.
     inversion X; subst s'; clear X. cbn [objs bag links].
     rewrite notif_cmd_good in O by auto.
-    apply orb_false_iff in Hz. destruct Hz as [Hz1 Hz2].
     set (x := getO (objs s) id) in *.
     assert (Hid : In id (bag s)) by (eapply nth_error_In; eauto).
     assert (S1 : forall y, In y (remove_at i (bag s)) -> In y (bag s)) by (intros; eapply remove_at_In; eauto).
     assert (S2 : forall y, In y (bag s) -> y <> id -> In y (remove_at i (bag s))) by (intros; eapply In_remove_at; eauto).
     assert (HzA : o_exit x = false -> forall e, In e (bag s) -> conflicts (getO (objs s) e) x = false).
-    { intros E. rewrite E in Hz2. cbn in Hz2. apply orb_false_iff in Hz2. destruct Hz2 as [A _].
+    { intros E. rewrite E in Hz. cbn in Hz. apply orb_false_iff in Hz. destruct Hz as [A _].
       intros e He. apply (bag_has_false s (fun e => conflicts e x) A e He). }
     assert (HzB : o_exit x = false -> forall p, o_parent x = Some p -> o_exit (getO (objs s) p) = true ->
        exists e, In e (bag s) /\ is_topic (getO (objs s) e) = true /\ o_exit (getO (objs s) e) = true /\ o_t (getO (objs s) e) = o_t x).
-    { intros E p Pp Ep. rewrite E in Hz2. cbn in Hz2. apply orb_false_iff in Hz2. destruct Hz2 as [_ B].
+    { intros E p Pp Ep. rewrite E in Hz. cbn in Hz. apply orb_false_iff in Hz. destruct Hz as [_ B].
       rewrite Pp, Ep in B. cbn in B. apply negb_false_iff in B. apply bag_has_true in B.
       destruct B as (e & He & Pe). rewrite !andb_true_iff in Pe. destruct Pe as [[P1 P2] P3].
       apply N.eqb_eq in P3. exists e. auto. }
@@ -517,15 +497,9 @@ Proof.
     destruct (HL n k Qn Hk) as [L HJ]. cbn.
     destruct (k_conf k) eqn:C.
     + apply (link_cmd c (objs s) (bag s) (remove_at i (bag s)) (Some (deliver_cmd x)) k); auto.
-      * intros NS. apply stale_exiting_false.
-        destruct (stale_exiting s); auto. cbn in Hz1.
-        assert (may_connect s = true); [|congruence].
-        apply existsb_exists. exists k. split. eapply nth_error_In; eauto.
-        rewrite C. cbn. apply negb_true_iff. apply Z.eqb_neq. auto.
-      * intros R HR. cbn. eapply deliver_J; eauto.
+      intros R HR. cbn. eapply deliver_J; eauto.
     + cbn. split; auto. intros A. destruct (L A) as [_ C']. congruence.
   - (* Tick *)
-    cbn [hazard] in Hz.
     match type of X with context [on_links ?f 0 ?ls] => destruct (on_links f 0 ls) as [ls'|] eqn:O; [|discriminate] end.
     inversion X; subst s'; clear X. cbn [objs bag links].
     split; auto. split; auto.
@@ -533,27 +507,18 @@ Proof.
     destruct (HL n k Qn Hk) as [L HJ]. cbn.
     destruct (k_conf k) eqn:C.
     + apply (link_cmd c (objs s) (bag s) (bag s) (Some CPing) k); auto.
-      intros NS. apply stale_exiting_false.
-      destruct (stale_exiting s); auto. cbn in Hz.
-      assert (may_connect s = true); [|congruence].
-      apply existsb_exists. exists k. split. eapply nth_error_In; eauto.
-      rewrite C. cbn. apply negb_true_iff. apply Z.eqb_neq. auto.
     + cbn. split; auto.
   - (* Reconfigure *)
-    cbn [hazard] in Hz.
     match type of X with context [on_links ?f 0 ?ls] => destruct (on_links f 0 ls) as [ls'|] eqn:O; [|discriminate] end.
     inversion X; subst s'; clear X. cbn [objs bag links].
     split; auto. split; auto.
     intros n k' Qn Hk'. destruct (on_links_inv _ _ _ _ O) as [_ N]. destruct (N n k' Hk') as (k & Hk & ->).
     cbn [Nat.add].
-    (* the link at position n of the extended list *)
-    assert (Hk0 : k = nth n (links s) fresh_link /\
-                  (LK k /\ (l_alive k = true -> J (objs s) (bag s) (l_regs k)))).
+    assert (Hk0 : LK k /\ (l_alive k = true -> J (objs s) (bag s) (l_regs k))).
     { destruct (ensure_links_nth _ _ _ _ Hk) as [A|[A ->]].
-      - split. symmetry. apply nth_error_nth with (d := fresh_link) in A. auto. eapply HL; eauto.
-      - split. symmetry. apply nth_overflow. apply nth_error_None. auto.
-        split; intros B; discriminate. }
-    destruct Hk0 as (Ek & L & HJ).
+      - eapply HL; eauto.
+      - split; intros B; discriminate. }
+    destruct Hk0 as (L & HJ).
     destruct (mem n addrs) eqn:Mn.
     + destruct (k_conf k) eqn:C; cbn. { split; auto. }
       assert (NA : l_alive k = false).
@@ -562,10 +527,6 @@ Proof.
       { auto. } { auto. } { reflexivity. }
       { intros A. cbn in A. congruence. }
       { cbn. intros A. congruence. }
-      { intros _. apply stale_exiting_false.
-        destruct (stale_exiting s); auto. cbn in Hz.
-        assert (adds_peer s addrs = true); [|congruence].
-        apply existsb_exists. exists n. split. apply mem_In; auto. rewrite <- Ek, C. reflexivity. }
       { intros R HR. exact HR. }
     + destruct (k_conf k) eqn:C; cbn.
       * split. intros A; discriminate. intros A; discriminate.
